@@ -15,7 +15,10 @@ EXPLANATION = (
     "next = old head, zero pad, head = slot of the list selected by the same size; exact-class pop: head = popped "
     "slot's next only when the head was non-zero; large pop unlinks via predecessor or header); (4) byte conservation on "
     "the shared large list: where the first-fit pop hands out a slot, the match is exact, or the remainder is pushed "
-    "back, or the found size becomes the record's size; (5) size-class table sanity.")
+    "back, or the found size becomes the record's size; the slot is taken on the edge of the size test that implies "
+    "requested <= found (operator and operand order); every path to a record write passes the fit arm or the "
+    "allocation; the push files the slot on every successful path (only the null offset is exempt); (5) size-class "
+    "table sanity.")
 NOT_DECIDED = ("tiling / no-overlap as an invariant of all reachable states; the quantitative bound on file size; termination "
                "of the slot walk (follows from tiling).")
 ASSUMPTIONS = ["flow-insensitive origin tracing restricted to reaching definitions"]
@@ -191,6 +194,11 @@ def check_writer(ctx, prog, R, eff, kind, fn, r_rec, piece):
                   "the slot size is not rounded up from exactly (size-field length + payload length) of the size estimate (argument: %s)" % k7.expr_str(e), where=where(fn, ru[0][0]))
 
 
+def _unreachable_block(fn, b):
+    t = fn.blocks[b]["term"]
+    return t is not None and t["t"] == "unreachable" and not fn.blocks[b]["stmts"]
+
+
 def check_push(ctx, prog, R, eff):
     fn = R.need("SLOT_PUSH")
     ctx.touch(fn, len(fn.blocks))
@@ -303,6 +311,22 @@ def check_large_pop(ctx, prog, R, eff):
             wa = [b for b, t in calls_to(prog, fn, target_fn=R.need("FREE_HEAD_WRITE")) if b in a] + [b for b, t in calls_to(prog, fn, target_fn=R.need("W_FREE_OFFSET")) if b in a]
             wb = [b for b, t in calls_to(prog, fn, target_fn=R.need("FREE_HEAD_WRITE")) if b in b_] + [b for b, t in calls_to(prog, fn, target_fn=R.need("W_FREE_OFFSET")) if b in b_]
             if wa and wb:
+                unl_ok = True
+    if not unl_ok:
+        # the "no predecessor" case spelled as `match pred { Some(p) => .., None => .. }` (or any other two-way branch): one arm
+        # rewrites the predecessor's link, the other the list head
+        hws_ = [b for b, t in calls_to(prog, fn, target_fn=R.need("FREE_HEAD_WRITE"))]
+        wos_ = [b for b, t in calls_to(prog, fn, target_fn=R.need("W_FREE_OFFSET"))]
+        for b_sw, blk in enumerate(fn.blocks):
+            t_ = blk["term"]
+            if blk["cleanup"] or b_sw not in r_hit or not t_ or t_["t"] != "switch":
+                continue
+            tg = [bb for v, bb in t_["targets"]] + ([t_["otherwise"]] if t_["otherwise"] is not None else [])
+            tg = [x for x in tg if not _unreachable_block(fn, x)]
+            if len(tg) != 2:
+                continue
+            ra, rb = region_dominated(fn, tg[0]), region_dominated(fn, tg[1])
+            if (any(x in ra for x in hws_) and any(x in rb for x in wos_)) or (any(x in rb for x in hws_) and any(x in ra for x in wos_)):
                 unl_ok = True
     ctx.check(unl_ok, "large-pop", "unlinks", "the large slot handed out is not unlinked from its list (via predecessor or header)", where=where(fn, hit_entry))
     # (4) byte conservation
